@@ -25,13 +25,13 @@ EXTENDS IqDispatch, Integers, Json, CSV, IOUtils
 
 TraceLog == ndJsonDeserialize(IOEnv.QXV_TRACE)
 
-VARIABLES l, cid, viol, ndiv, divs, dflag, ncases, nreq, nresp, nother, nclosed
+VARIABLES l, cid, viol, nviol, ndiv, divs, dflag, ncases, nreq, nresp, nother, nclosed
 
-tvars == <<vars, l, cid, viol, ndiv, divs, dflag, ncases, nreq, nresp, nother, nclosed>>
+tvars == <<vars, l, cid, viol, nviol, ndiv, divs, dflag, ncases, nreq, nresp, nother, nclosed>>
 
 TInit ==
     /\ Init /\ ext = "none"
-    /\ l = 1 /\ cid = "" /\ viol = {} /\ ndiv = 0 /\ divs = <<>> /\ dflag = FALSE /\ ncases = 0
+    /\ l = 1 /\ cid = "" /\ viol = {} /\ nviol = 0 /\ ndiv = 0 /\ divs = <<>> /\ dflag = FALSE /\ ncases = 0
     /\ nreq = 0 /\ nresp = 0 /\ nother = 0 /\ nclosed = 0
 
 (* --- facts derived from one logged line ----------------------------------- *)
@@ -58,13 +58,16 @@ ModelAct(ev) ==
 ResetStep(ev) ==
     /\ Reinit(ev.ext)
     /\ cid' = ev.case /\ dflag' = FALSE /\ ncases' = ncases + 1
-    /\ UNCHANGED <<viol, ndiv, divs, nreq, nresp, nother, nclosed>>
+    /\ UNCHANGED <<viol, nviol, ndiv, divs, nreq, nresp, nother, nclosed>>
 
 OpStep(ev) ==
     /\ \/ ModelAct(ev)
        \/ (~ENABLED ModelAct(ev)) /\ UNCHANGED vars
-    /\ viol' = viol \cup {[case |-> cid, line |-> l, prop |-> p, t |-> ev.t, p |-> ev.p, f |-> ev.f, k |-> ev.k,
-                           n |-> Replies(ev)] : p \in Failed(ev)}
+    \* one record per (property, extension set, type, payload, sender class): the first line that shows it
+    /\ viol' = viol \cup {[case |-> cid, line |-> l, prop |-> p, ext |-> ext, t |-> ev.t, p |-> ev.p, f |-> ev.f, k |-> ev.k,
+                           n |-> Replies(ev)] :
+                              p \in {q \in Failed(ev) : ~\E v \in viol : v.prop = q /\ v.ext = ext /\ v.t = ev.t /\ v.p = ev.p /\ v.f = ev.f}}
+    /\ nviol' = nviol + Cardinality(Failed(ev))
     /\ nreq' = nreq + (IF ev.t \in Req THEN 1 ELSE 0)
     /\ nresp' = nresp + (IF ev.t \in Resp THEN 1 ELSE 0)
     /\ nother' = nother + (IF ev.t \notin (Req \cup Resp) THEN 1 ELSE 0)
@@ -83,11 +86,11 @@ TNext ==
     /\ LET ev == TraceLog[l] IN
         IF ev.e = "Reset" THEN ResetStep(ev)
         ELSE IF ev.e = "Recv" THEN OpStep(ev)
-        ELSE UNCHANGED <<vars, cid, viol, ndiv, divs, dflag, ncases, nreq, nresp, nother, nclosed>>
+        ELSE UNCHANGED <<vars, cid, viol, nviol, ndiv, divs, dflag, ncases, nreq, nresp, nother, nclosed>>
 
 TSpec == TInit /\ [][TNext]_tvars
 
-Summary == [cases |-> ncases, lines |-> l - 1, viol |-> viol, ndiv |-> ndiv, divs |-> divs,
+Summary == [cases |-> ncases, lines |-> l - 1, viol |-> viol, nviol |-> nviol, ndiv |-> ndiv, divs |-> divs,
             requests |-> nreq, responses |-> nresp, othertype |-> nother, closed |-> nclosed]
 Done == l <= Len(TraceLog) \/ CSVWrite("%1$s", <<ToJson(Summary)>>, IOEnv.QXV_SUMMARY)
 =============================================================================
